@@ -52,16 +52,28 @@ GSend(s) ==
     /\ LET m == [s |-> s, n |-> counter[s] + 1] IN
          /\ counter' = [counter EXCEPT ![s] = @ + 1]
          /\ budget' = [budget EXCEPT ![m] = MaxRetx]
+         /\ book' = [book EXCEPT !.calls[s] = @ + 1, !.tagged[m] = @ \cup {book.calls[s] + 1}]
          /\ EnqAll(m)
          /\ UNCHANGED <<dl, handlers, ctxDone, removed, pc, cur, seen, ninv, stale>>
          /\ E("Send", "", m, FALSE)
+
+\* channel.Send whose own publication attempt fails (libp2p: the publisher returns an
+\* error): the number is taken, the retransmissions are scheduled, nothing is delivered
+GSendFail(s) ==
+    /\ counter[s] < MaxSend /\ book.fails < MaxFail
+    /\ LET m == [s |-> s, n |-> counter[s] + 1] IN
+         /\ counter' = [counter EXCEPT ![s] = @ + 1]
+         /\ budget' = [budget EXCEPT ![m] = MaxRetx]
+         /\ book' = [book EXCEPT !.calls[s] = @ + 1, !.tagged[m] = @ \cup {book.calls[s] + 1}, !.fails = @ + 1]
+         /\ UNCHANGED <<dl, handlers, ctxDone, removed, pc, queue, cur, seen, ninv, stale, acc>>
+         /\ E("SendFail", "", m, FALSE)
 
 \* one retransmission (the RetransmitFn of Send), synchronously
 GRetransmit(m) ==
     /\ budget[m] > 0
     /\ budget' = [budget EXCEPT ![m] = @ - 1]
     /\ EnqAll(m)
-    /\ UNCHANGED <<counter, dl, handlers, ctxDone, removed, pc, cur, seen, ninv, stale>>
+    /\ UNCHANGED <<counter, dl, handlers, ctxDone, removed, pc, cur, seen, ninv, stale, book>>
     /\ E("Retransmit", "", m, FALSE)
 
 GRegister(h) == ~ctxDone[h] /\ Register(h) /\ E("Register", h, NoMsg, FALSE)
@@ -77,7 +89,7 @@ GCancel(h) ==
                /\ ctxDone' = [ctxDone EXCEPT ![h] = TRUE]
                /\ handlers' = SwapRemove(handlers, h)
                /\ removed' = [removed EXCEPT ![h] = TRUE]
-               /\ UNCHANGED <<counter, budget, dl, pc, queue, cur, seen, ninv, stale, acc>>
+               /\ UNCHANGED <<counter, budget, dl, pc, queue, cur, seen, ninv, stale, acc, book>>
                /\ E("CancelRemove", h, NoMsg, FALSE)
 
 GDequeue(h)    == Dequeue(h) /\ E("Dequeue", h, Head(queue[h]), ctxDone[h])
@@ -96,14 +108,14 @@ GFilterInvoke(h) ==
                /\ seen' = [seen EXCEPT ![h] = @ \cup {cur[h]}]
                /\ ninv' = [ninv EXCEPT ![h][cur[h]] = @ + 1]
                /\ UNCHANGED cur
-    /\ UNCHANGED <<counter, budget, dl, handlers, ctxDone, removed, queue, stale, acc>>
+    /\ UNCHANGED <<counter, budget, dl, handlers, ctxDone, removed, queue, stale, acc, book>>
     /\ E("FilterInvoke", h, cur[h], FALSE)
 
 Stop == Len(hist) >= MaxSteps
 
 GNext ==
     /\ ~Stop
-    /\ \/ \E s \in Senders : GSend(s)
+    /\ \/ \E s \in Senders : GSend(s) \/ GSendFail(s)
        \/ \E m \in Msgs : GRetransmit(m)
        \/ \E h \in Handlers :
              \/ GRegister(h) \/ GCancel(h) \/ GDequeue(h) \/ GExitOnDone(h)
@@ -115,6 +127,6 @@ Emit == (Stop \/ ~ENABLED GNext) =>
            CSVWrite("%1$s", <<ToJson([steps |-> hist, lifecycle |-> Lifecycle])>>, "behaviours.ndjson")
 
 \* the generation restriction must not hide violations of its own
-GenInvariants == AtMostOnce /\ NoStaleInvoke /\ OnlyAllocated /\ HandlersConsistent
+GenInvariants == AtMostOnce /\ NoStaleInvoke /\ OnlyAllocated /\ SeqnoUnique /\ HandlersConsistent
                  /\ FilterConsistent /\ NoLoss /\ ExitedIdle
 =============================================================================
